@@ -3,7 +3,7 @@
 import json, sys, shutil, os, subprocess
 pid, var, verdict = sys.argv[1:4]
 note = sys.argv[4] if len(sys.argv) > 4 else ""
-src = f"/tmp/seed_out/{pid}/{var}"
+src = f"{os.environ.get('SEED_BASE','/tmp/seed_out')}/{pid}/{var}"
 dst = f"/verif/seeded/{pid}-{var}"
 os.makedirs(dst, exist_ok=True)
 meta = json.load(open(f"{src}/meta.json"))
